@@ -56,4 +56,56 @@ package core
 // float64 (which would round above 2^53). Stated under the reflect fact that a string value is not convertible to int.
 //@ func ImportToX$3
 //@ props C19
+//@ may_panic
+// toInt: nil -> 0; a value Go can convert to int -> Go's conversion; a numeral string -> ParseInt, else ParseFloat truncated;
+// true -> 1; everything else (containers, non-numeric strings, false) -> 0
+//@ ensures [C19] nil: v == nil ==> result == 0
+//@ ensures [C19] goconv: v != nil && typeConvertible(rvTypeOf(valueOfS(v)), intT()) ==> result == rvInt(rvConvert(valueOfS(v), intT()))
+//@ ensures [C19] floatstring: typeis(v, "string") && !typeConvertible(rvTypeOf(valueOfS(v)), intT()) && !parseIntOK(as(v, "string"), 10, 64) && parseFloatOK(as(v, "string"), 64) ==> result == f2i(parseFloatVal(as(v, "string"), 64))
+//@ ensures [C19] nonnumeric: typeis(v, "string") && !typeConvertible(rvTypeOf(valueOfS(v)), intT()) && !parseIntOK(as(v, "string"), 10, 64) && !parseFloatOK(as(v, "string"), 64) ==> result == 0
+//@ ensures [C19] other: v != nil && !typeConvertible(rvTypeOf(valueOfS(v)), intT()) && !typeis(v, "string") && !typeis(v, "bool") ==> result == 0
+//@ ensures [C19] bool: typeis(v, "bool") && !typeConvertible(rvTypeOf(valueOfS(v)), intT()) ==> result == ite(as(v, "bool"), 1, 0)
 //@ ensures [C19] intstring: typeis(v, "string") && !typeConvertible(rvTypeOf(valueOfS(v)), typeOfS(iface(1, "int"))) && parseIntOK(as(v, "string"), 10, 64) ==> result == parseIntVal(as(v, "string"), 10, 64)
+
+// ---------------------------------------------------------------------------
+// C19: the scalar builtins against their Go counterparts. reflect / strconv / fmt are the oracles (trusted functions of
+// their arguments): valueOfS, rvTypeOf, typeConvertible, rvConvert, parseIntOK/Val, parseFloatOK/Val, sprintI, rtString,
+// kindName.
+//@ spec fun rtString(t reflect.Type) string
+//@ spec fun kindOfType(t reflect.Type) int
+//@ spec fun kindName(k int) string
+//@ spec fun intT() reflect.Type = typeOfS(iface(1, "int"))
+//@ spec fun floatT() reflect.Type = typeOfS(iface(f64(1), "float64"))
+
+// keys(m): one list entry per key reflect reports for the map (each key exactly once is reflect.MapKeys' own guarantee),
+// entry k being key k as a plain value; anything but a map is a (recovered) panic, i.e. an error of the call
+//@ func Import$1
+//@ props C19
+//@ may_panic
+//@ panics_only_when rvKind(ite(rvKind(valueOfS(v)) == reflect.Interface, rvElem(valueOfS(v)), valueOfS(v))) != reflect.Map
+//@ ensures [C19] allkeys: len(result) == len(mapKeysValue) && len(mapKeysValue) == rvLen(rv) && (forall k int :: 0 <= k && k < len(result) ==> result[k] == rvIface(mapKeysValue[k]))
+//@ loop 0 invariant [C19] prefix: 0 <= i && i <= len(mapKeysValue) && len(mapKeys) == len(mapKeysValue) && fresh(base(mapKeys)) && (forall k int :: 0 <= k && k < i ==> mapKeys[k] == rvIface(mapKeysValue[k])) && (forall k int :: 0 <= k && k < len(mapKeysValue) ==> rvValid(mapKeysValue[k]))
+
+// typeOf / kindOf: Go's own names of the dynamic type / kind; "nil" for nil
+//@ func Import$3
+//@ props C19
+//@ ensures [C19] typename: (v == nil ==> result == "nil") && (v != nil ==> result == rtString(typeOfS(v)))
+
+//@ func Import$4
+//@ props C19
+//@ ensures [C19] kindname: (v == nil ==> result == "nil") && (v != nil ==> result == kindName(kindOfType(typeOfS(v))))
+
+// toString: Go's default formatting (fmt.Sprint) of the value; a byte slice is converted as Go's string(b)
+//@ func ImportToX$2
+//@ props C19
+//@ ensures [C19] sprint: !typeis(v, "[]byte") ==> result == sprintI(v)
+
+// toFloat: the same table in float64
+//@ func ImportToX$4
+//@ props C19
+//@ may_panic
+//@ ensures [C19] nil: v == nil ==> same(result, f64(0))
+//@ ensures [C19] goconv: v != nil && typeConvertible(rvTypeOf(valueOfS(v)), floatT()) ==> same(result, rvFloat(rvConvert(valueOfS(v), floatT())))
+//@ ensures [C19] floatstring: typeis(v, "string") && !typeConvertible(rvTypeOf(valueOfS(v)), floatT()) && parseFloatOK(as(v, "string"), 64) ==> same(result, parseFloatVal(as(v, "string"), 64))
+//@ ensures [C19] nonnumeric: typeis(v, "string") && !typeConvertible(rvTypeOf(valueOfS(v)), floatT()) && !parseFloatOK(as(v, "string"), 64) ==> same(result, f64(0))
+//@ ensures [C19] other: v != nil && !typeConvertible(rvTypeOf(valueOfS(v)), floatT()) && !typeis(v, "string") && !typeis(v, "bool") ==> same(result, f64(0))
